@@ -271,6 +271,16 @@ MonoModel(f, g, pat0, use0, k0) ==
        [] use0 = "objmin" -> Model(pat0, <<LinCon(0, "inf", << <<0, 1>>, <<1, 1>> >>)>>, <<>>, <<Obj(FALSE, E)>>)
        [] use0 = "objmax" -> Model(pat0, <<LinCon("-inf", 2, << <<0, 1>>, <<2, 1>> >>)>>, <<>>, <<Obj(TRUE, E)>>)
 
+\* two equality comparisons of the same variable in one model, x0 = k and 2*x0 = 2k+-1 (never true for an integer
+\* x0; after normalisation it reads x0 = k+-1/2): the converter keeps a map from (variable, constant) to the
+\* result of the comparison, and the two must not meet in it
+EqPairModel(o, order, pat0, k0) ==
+  LET A == O2(24, V(0), N(k0))
+      B == O2(24, O2(2, N(2), V(0)), N(2 * k0 + (IF o = "up" THEN 1 ELSE -1)))
+      IA == O3(72, A, O2(28, V(2), N(1)), N(1))
+      IB == O3(72, B, O2(28, V(1), N(1)), N(1))
+  IN Model(pat0, <<>>, IF order = "ab" THEN <<IA, IB>> ELSE <<IB, IA>>, <<SumObj>>)
+
 VARIABLES kind, op, sh, pat, use, k
 vars == <<kind, op, sh, pat, use, k>>
 
@@ -286,6 +296,7 @@ Init ==
      \/ (kind = "cone" /\ op \in ConeOps /\ sh = "vars" /\ use \in {"con", "con2"} /\ k \in {0, 1})
      \/ (kind = "prod" /\ op \in ProdInner /\ sh \in ProdOther /\ use \in {"con_le", "con_ge", "con_eq", "objmin", "objmax"} /\ k \in {-2, -1, 1, 2})
      \/ (kind = "mono" /\ op \in MonoOps /\ sh \in MonoInner /\ use \in {"con_le", "con_ge", "con_eq", "objmin", "objmax"} /\ k \in {1, 2, 4})
+     \/ (kind = "eqpair" /\ op \in {"up", "dn"} /\ sh \in {"ab", "ba"} /\ use = "impl" /\ k \in -1..3)
      \/ (kind = "nest" /\ op \in NestOuter /\ sh \in NestInner /\ use \in {"con_le", "con_ge", "objmin", "lcon_lt", "shared", "inor"} /\ k \in {0, 1})
 Next == UNCHANGED vars
 
@@ -308,5 +319,6 @@ TheModel == CASE kind = "num" -> NumModel(op, sh, pat, use, k)
               [] kind = "cmp" -> CmpModel(op, sh, pat, use, k)
               [] kind = "prod" -> ProdModel(op, sh, pat, use, k)
               [] kind = "mono" -> MonoModel(op, sh, pat, use, k)
+              [] kind = "eqpair" -> EqPairModel(op, sh, pat, k)
 Emit == PrintT(<<"CASE", ToJson([kind |-> kind, op |-> op, sh |-> sh, pat |-> pat, use |-> use, k |-> k, m |-> TheModel])>>)
 =============================================================================
